@@ -119,6 +119,27 @@ class PropertyV(Value):
         self.fget, self.fset = fget, fset
 
 
+class IterV(Value):
+    """an iterator over a known finite sequence (iter(seq), itertools.islice(...)): the items and how many were consumed"""
+
+    def __init__(self, items):
+        self.items, self.pos = list(items), 0
+
+
+class CountV(Value):
+    """itertools.count(start, step) with constant integers: unbounded"""
+
+    def __init__(self, start, step):
+        self.start, self.step, self.pos = start, step, 0
+
+
+class MethodCallerV(Value):
+    """operator.methodcaller(name, *args, **kwargs)"""
+
+    def __init__(self, name, args, kwargs):
+        self.name, self.args, self.kwargs = name, list(args), dict(kwargs)
+
+
 class PartialV(Value):
     """functools.partial(func, *args, **kwargs)"""
 
@@ -635,6 +656,8 @@ class Interp:
             return self.call_value(f.func, f.args + list(args), kw, node, frame)
         if isinstance(f, NTClass):
             return f.make(list(args), dict(kwargs))
+        if isinstance(f, MethodCallerV) and len(args) == 1 and not kwargs:
+            return self.call_value(self.getattr(args[0], f.name, node, frame), list(f.args), dict(f.kwargs), node, frame)
         if isinstance(f, ClassRef):
             r = self.dom.instantiate(f.ci, args, kwargs, node)
             if r is not None:
@@ -656,7 +679,7 @@ class Interp:
             if r is not out:
                 self.fwd[id(out)] = (out, r)
             return r
-        if isinstance(f, ExtRef) and f.dotted.split('.')[0] in ('functools', 'operator', 'collections', 'typing'):
+        if isinstance(f, ExtRef) and f.dotted.split('.')[0] in ('functools', 'operator', 'collections', 'typing', 'itertools'):
             r = self._stdlib_ext(f.dotted, args, kwargs, node, frame)
             if r is not None:
                 return r
@@ -724,6 +747,27 @@ class Interp:
             if dl is None:
                 return Unknown('namedtuple with defaults that are not followed')
             return NTClass(args[0].v, names, dl)
+        if dotted == 'itertools.count' and len(args) <= 2 and not kwargs and all(isinstance(a, Const) and isinstance(a.v, int) for a in args):
+            return CountV(args[0].v if args else 0, args[1].v if len(args) > 1 else 1)
+        if dotted == 'itertools.islice' and 2 <= len(args) <= 4 and not kwargs and all(isinstance(a, Const) and (a.v is None or isinstance(a.v, int)) for a in args[1:]):
+            lo, hi, st_ = (0, args[1].v, 1) if len(args) == 2 else (args[1].v or 0, args[2].v, (args[3].v if len(args) > 3 else None) or 1)
+            src = args[0]
+            if hi is None and not isinstance(src, (Tup, IterV)):
+                return Unknown('islice without an end of something unbounded')
+            if isinstance(src, GenV):
+                items, fin = src.rest(hi)
+            elif isinstance(src, CountV):
+                items = [Const(src.start + src.step * (src.pos + k)) for k in range(hi)]
+                src.pos += hi
+            else:
+                items = self.iterate(src, node)
+                if isinstance(src, IterV) and items is not None:
+                    src.pos += min(len(items), hi if hi is not None else len(items))
+            if items is None:
+                return Unknown('islice of a sequence that is not followed')
+            return IterV(items[lo:hi:st_])
+        if dotted == 'operator.methodcaller' and args and isinstance(args[0], Const) and isinstance(args[0].v, str):
+            return MethodCallerV(args[0].v, args[1:], kwargs)
         if dotted.startswith('operator.'):
             nm = dotted.split('.', 1)[1]
             if nm in self._OPERATOR and len(args) == 2:
@@ -882,6 +926,8 @@ class Interp:
             if name == 'extend' and recv.kind == 'list' and isinstance(args[0], Tup):
                 recv.items.extend(args[0].items)
                 return Const(None)
+            if name == 'count' and len(args) == 1 and isinstance(args[0], Const) and all(isinstance(i_, Const) for i_ in recv.items):
+                return Const(sum(1 for i_ in recv.items if i_ == args[0]))
             if name == 'index':
                 for i, it in enumerate(recv.items):
                     if it == args[0]:
@@ -983,6 +1029,23 @@ class Interp:
                 if len(rg) <= 64:
                     return Tup([Const(i) for i in rg], 'range')
             return Unknown('range')
+        if name == 'iter' and len(args) == 1 and not kwargs:
+            if isinstance(args[0], (GenV, IterV, CountV)):
+                return args[0]
+            its = self.iterate(args[0], node)
+            return IterV(its) if its is not None else Unknown('iter of something that is not followed')
+        if name == 'next' and args and isinstance(args[0], (IterV, CountV)) and len(args) <= 2 and not kwargs:
+            g = args[0]
+            if isinstance(g, CountV):
+                g.pos += 1
+                return Const(g.start + g.step * (g.pos - 1))
+            if g.pos < len(g.items):
+                g.pos += 1
+                return g.items[g.pos - 1]
+            return args[1] if len(args) == 2 else Unknown('next() of an exhausted iterator')
+        if name == 'divmod' and len(args) == 2 and all(isinstance(a, Const) and isinstance(a.v, int) and not isinstance(a.v, bool) for a in args) and args[1].v != 0:
+            q, r_ = divmod(args[0].v, args[1].v)
+            return Tup([Const(q), Const(r_)])
         if name == 'next' and args and isinstance(args[0], GenV) and len(args) <= 2 and not kwargs:
             g = args[0]
             items, fin = g.take(g.pos + 1)
@@ -994,6 +1057,33 @@ class Interp:
             if len(args) == 2:
                 return args[1]
             return Unknown('next() of an exhausted generator')
+        if name in ('zip', 'enumerate') and any(isinstance(a, CountV) for a in args):
+            if name == 'zip':
+                others = [self.iterate(a, node) if not isinstance(a, (CountV, GenV)) else None for a in args]
+                if any(isinstance(a, GenV) for a in args):
+                    fin_n = min([len(o) for o in others if o is not None], default=None)
+                    for k, a in enumerate(args):
+                        if isinstance(a, GenV):
+                            items, fin = a.rest(fin_n if fin_n is not None else self.GEN_FUEL)
+                            if items is None or (fin_n is None and not fin):
+                                return Unknown('zip over generators that are not followed')
+                            others[k] = items
+                            fin_n = len(items) if fin_n is None else min(fin_n, len(items))
+                n_ = min([len(o) for o in others if o is not None], default=None)
+                if n_ is None:
+                    return Unknown('zip of unbounded iterators only')
+                cols = []
+                for a, o in zip(args, others):
+                    if isinstance(a, CountV):
+                        cols.append([Const(a.start + a.step * (a.pos + k)) for k in range(n_)])
+                        # zip asks every iterator in turn: the counter is advanced once more than the pairs made when a later
+                        # iterator is the one that runs out first
+                        later_shorter = any(o2 is not None and len(o2) == n_ for a2, o2 in list(zip(args, others))[args.index(a) + 1:])
+                        a.pos += n_ + (1 if later_shorter else 0)
+                    else:
+                        cols.append(o[:n_])
+                return Tup([Tup(list(x)) for x in zip(*cols)], 'zip')
+            return Unknown('enumerate of an unbounded counter')
         if name == 'zip' and any(isinstance(a, GenV) and a.pos for a in args):
             return Unknown('zip over a partly consumed generator')
         if name == 'zip' and any(isinstance(a, GenV) for a in args):
@@ -1055,6 +1145,8 @@ class Interp:
                 vals = it if it is not None else None
             if vals and all(isinstance(a, Const) and isinstance(a.v, (int, float)) for a in vals):
                 return Const((max if name == 'max' else min)(a.v for a in vals))
+            if vals is not None and not vals and len(args) == 1 and 'default' in kwargs:
+                return kwargs['default']
             return Unknown(name)
         if name == 'sum':
             it = self.iterate(args[0], node) if args else None
@@ -1185,6 +1277,10 @@ class Interp:
         return Unknown('isinstance')
 
     def iterate(self, v, node):
+        if isinstance(v, IterV):
+            out = v.items[v.pos:]
+            v.pos = len(v.items)
+            return out
         if isinstance(v, GenV):
             items, fin = v.rest(self.GEN_FUEL)
             return items if (items is not None and fin) else None
@@ -1778,6 +1874,8 @@ class Interp:
             return Tup(a.items * b.v, a.kind)
         if isinstance(op, ast.Mult) and isinstance(b, Tup) and isinstance(a, Const) and isinstance(a.v, int):
             return Tup(b.items * a.v, b.kind)
+        if __import__('os').environ.get('SA_DEBUG_UNKNOWN'):
+            print('UNKNOWN-BINOP', type(op).__name__, repr(a)[:150], '|', repr(b)[:150], 'line', getattr(node, 'lineno', 0), file=__import__('sys').stderr)
         return Unknown('binop')
 
     def ev_UnaryOp(self, node, frame):
